@@ -446,3 +446,41 @@ func c19SynthLookup(t *C19CodeTable, strs []string, what string) error {
 	}
 	return firstErr
 }
+
+// c19SynthRows builds a code table from the answers alone (no name map in the source): the fall-back is read off
+// the largest value of the domain (a literal, or PRE<decimal>POST), every value that answers something else is a
+// row.  Among the readings of the fall-back the one with the fewest rows is taken; all of them reproduce the
+// method exactly, they differ only in what they call a row.
+func c19SynthRows(t *C19CodeTable, strs []string, what string) error {
+	n := uint64(1) << uint(t.Bits)
+	v0 := n - 1
+	d, s := strconv.FormatUint(v0, 10), strs[v0]
+	cands := []C19Fallback{{Kind: "lit", Lit: s}}
+	for j := 0; j+len(d) <= len(s); j++ {
+		if s[j:j+len(d)] == d {
+			cands = append(cands, C19Fallback{Kind: "fmt", Pre: s[:j], Post: s[j+len(d):]})
+		}
+	}
+	best := -1
+	for _, fb := range cands {
+		tmp := C19CodeTable{Fallback: fb}
+		var rows []C19CodeRow
+		for v := uint64(0); v < n; v++ {
+			if c19CodeString(&tmp, v) != strs[v] {
+				rows = append(rows, C19CodeRow{Key: fmt.Sprintf("%#x", v), Value: v, Name: strs[v], Pos: what})
+			}
+		}
+		if best < 0 || len(rows) < best || (len(rows) == best && fb.Kind == "fmt") {
+			best, t.Rows, t.Fallback = len(rows), rows, fb
+		}
+	}
+	if len(t.Rows) == 0 || uint64(len(t.Rows)) > n/2 {
+		return fmt.Errorf("%s: the answers on the %d values are not a name table with a fall-back (%d values would be rows)", what, n, len(t.Rows))
+	}
+	for v := uint64(0); v < n; v++ {
+		if c19CodeString(t, v) != strs[v] {
+			return fmt.Errorf("%s: internal: synthesised table differs at %#x", what, v)
+		}
+	}
+	return nil
+}
